@@ -7,13 +7,15 @@ PROP = 'C08'
 def run(tier, seed):
     return netcheck.run_net(PROP, tier, seed,
         profiles=[('mix', 60, 600, 60), ('lra', 40, 400, 60), ('idl', 40, 400, 60), ('rdl', 40, 400, 60), ('ov', 20, 200, 40)],
-        rule='(1) every transition of the state graph of the implementation-shaped model DiffLogicImpl (spec/DiffLogicGen.tla prints one test per transition: shortest history to the source state + the action) replayed on idl_theory and rdl_theory, the reported distance matrix compared with the model after every level episode, pop and conflict backjump; (2) seeded assume / pop / next / check histories (conflicts and backjumps included) over networks mixing LRA, IDL, '
+        rule='(0) every transition of the state graph of the implementation-shaped model SatCoreImpl (spec/SatCoreGen.tla prints one test per transition) replayed on the real sat_core: answer, value of every variable and decision level compared with the model after every call; deviating executions are decided by NetworkTrace; (1) every transition of the state graph of the implementation-shaped model DiffLogicImpl (spec/DiffLogicGen.tla prints one test per transition: shortest history to the source state + the action) replayed on idl_theory and rdl_theory, the reported distance matrix compared with the model after every level episode, pop and conflict backjump; (2) seeded assume / pop / next / check histories (conflicts and backjumps included) over networks mixing LRA, IDL, '
              'RDL and OV literals; whenever the same set of assigned literals recurs the reported bounds, distance matrices and '
              'domains must be identical to the earlier ones, and every assigned literal must be a consequence of the clauses and '
              'the standing decisions (so that root level leaves only root consequences); distinct_nontrivial = distinct '
              'executions with at least two pop/next steps',
         models=[('MC_DiffLogicImpl', 'MC_DiffLogicImpl_quick.cfg', 'MC_DiffLogicImpl.cfg',
-                 'implementation-shaped model of idl_theory (incremental update, predecessors, enforcing constraints, first-write-wins undo layers): DistExact, ConflictIffNegCycle, ExplanationsValid, PopRestores* over all assert / negate / push / pop histories', None)],
+                 'implementation-shaped model of idl_theory (incremental update, predecessors, enforcing constraints, first-write-wins undo layers): DistExact, ConflictIffNegCycle, ExplanationsValid, PopRestores* over all assert / negate / push / pop histories', None),
+                ('MC_SatCoreImpl', 'MC_SatCoreImpl_C.cfg', 'MC_SatCoreImpl_A1.cfg', 'implementation-shaped model of sat_core / clause: trail, levels and watch lists after pop / backjump (TrailInv, WatchInv, PropagationComplete, AssignedEntailed)', None)],
+        satimpl=(['SatCoreGen_C.cfg', 'SatCoreGen_B.cfg'], ['SatCoreGen_A1.cfg', 'SatCoreGen_C.cfg']),
         dlimpl=(False, True),
         assumptions=['at most 11 propositional variables and 6 theory atoms per execution',
                      'arithmetic values (as opposed to bounds) are not required to be restored'])
